@@ -283,3 +283,8 @@ def run(ctx):
     # over FF/SF chains of tasks that reach zero in the same step (shared with C06)
     from .C06 import r6_4
     r6_4(ctx)
+    # "nothing from an absent resource": the resource state the progress helpers read must be right at perform time
+    from .C10 import r10_2
+    from .C03 import r3_4
+    r10_2(ctx)
+    r3_4(ctx)
